@@ -41,3 +41,10 @@ From LZ4V Require Import GenCompressBodySearch.
 Theorem C10_translated_match_found : ltac:(let t := type of found_exec in exact t).
 Proof. exact found_exec. Qed.
 Print Assumptions C10_translated_match_found.
+
+(* with the equality of the whole translated method and the model (C11_translated_equals_model): every block the
+   TRANSLATED fast compressor returns parses back strictly (translated_result: parse_block, wf_parse, strict) *)
+From LZ4V Require Import GenCompressBodyMain GenCompressBodyCorollaries.
+Theorem C10_translated_fast_strict : translated_contract_stmt.
+Proof. exact translated_contract. Qed.
+Print Assumptions C10_translated_fast_strict.
